@@ -336,15 +336,20 @@ class MessagePackRpc(MessagePackDocument):
         if out_type is None:
             return
 
-        out_type_info = out_type._type_info
+        if message is self.RESPONSE and ctx.descriptor.is_out_bare():
+            # the message class is the type of the only return value
+            out_instance, = ctx.out_object
 
-        # instantiate the result message
-        out_instance = out_type()
+        else:
+            out_type_info = out_type._type_info
 
-        # assign raw result to its wrapper, result_message
-        for i, (k, v) in enumerate(out_type_info.items()):
-            attrs = self.get_cls_attrs(v)
-            out_instance._safe_set(k, ctx.out_object[i], v, attrs)
+            # instantiate the result message
+            out_instance = out_type()
+
+            # assign raw result to its wrapper, result_message
+            for i, (k, v) in enumerate(out_type_info.items()):
+                attrs = self.get_cls_attrs(v)
+                out_instance._safe_set(k, ctx.out_object[i], v, attrs)
 
         # transform the results into a dict:
         if out_type.Attributes.max_occurs > 1:
